@@ -16,7 +16,11 @@ Sets == [
   D |-> << <<"z","h","DASH","H","a","n","s">>, <<"z","h","DASH","H","a","n","t","DASH","T","W">>, <<"j","a">> >>,
   E |-> << <<"d","e">> >>,
   \* names that are valid tags but not canonically cased: the configured NAME is what every string form must show
-  F |-> << <<"e","n">>, <<"e","n","DASH","u","s">>, <<"p","t","DASH","b","r">>, <<"z","h","DASH","h","a","n","t">> >> ]
+  F |-> << <<"e","n">>, <<"e","n","DASH","u","s">>, <<"p","t","DASH","b","r">>, <<"z","h","DASH","h","a","n","t">> >>,
+  \* the REGION decides the script, hence the direction (Punjabi in Pakistan, Azerbaijani in Iran, Uzbek in Afghanistan are written
+  \* right to left), next to the same languages without a region and with an explicit script
+  G |-> << <<"e","n">>, <<"p","a">>, <<"p","a","DASH","P","K">>, <<"a","z">>, <<"a","z","DASH","I","R">>, <<"a","z","DASH","A","r","a","b">>,
+           <<"u","z","DASH","A","F">>, <<"a","r","DASH","E","G">>, <<"h","e","DASH","I","L">> >> ]
 
 Lower == [A |-> "a", B |-> "b", C |-> "c", D |-> "d", E |-> "e", F |-> "f", G |-> "g", H |-> "h", I |-> "i", J |-> "j", K |-> "k", L |-> "l", M |-> "m",
           N |-> "n", O |-> "o", P |-> "p", Q |-> "q", R |-> "r", S |-> "s", T |-> "t", U |-> "u", V |-> "v", W |-> "w", X |-> "x", Y |-> "y", Z |-> "z"]
